@@ -222,30 +222,56 @@ def direction(cls: str, p: list[float]) -> int:
     raise KeyError(cls)
 
 
+def _div(a: float, b: float) -> float:
+    if b == 0.0:
+        if a != a or a == 0.0:
+            return NAN
+        return math.copysign(INF, a) * math.copysign(1.0, b)
+    return a / b
+
+
+def _log(v: float) -> float:
+    if v != v or v < 0.0:
+        return NAN
+    if v == 0.0:
+        return -INF
+    if v == INF:
+        return INF
+    return math.log(v)
+
+
+def _sqrtn(v: float) -> float:
+    if v != v or v < 0.0:
+        return NAN
+    return math.sqrt(v)
+
+
 def tsukamoto(cls: str, p: list[float], h: float, y: float) -> float:
-    """Closed-form inverse z(y) with mu(z) = y, from the tsukamoto docstrings."""
+    """Closed-form inverse z(y) with mu(z) = y, from the tsukamoto docstrings (total: IEEE results outside (0,h))."""
+    if y != y:
+        return NAN
     if cls == "Arc":
         s, e = p
         r = e - s
-        root = _sqrt0(r * r - (y * r / h) ** 2)
+        root = _sqrtn(r * r - (y * r / h) ** 2)
         return e - root if s < e else e + root
     if cls == "Concave":
         i, e = p
-        return h * (i - e) / y + 2.0 * e - i
+        return _div(h * (i - e), y) + 2.0 * e - i
     if cls == "Ramp":
         s, e = p
         return s + (e - s) * y / h
     if cls == "Sigmoid":
         i, s = p
-        return i + math.log(h / y - 1.0) / -s
+        return i + _div(_log(_div(h, y) - 1.0), -s)
     if cls == "SShape":
         s, e = p
         if y <= h / 2.0:
-            return s + (e - s) * math.sqrt(y / (2.0 * h))
-        return e - (e - s) * math.sqrt((h - y) / (2.0 * h))
+            return s + (e - s) * _sqrtn(y / (2.0 * h))
+        return e - (e - s) * _sqrtn((h - y) / (2.0 * h))
     if cls == "ZShape":
         s, e = p
         if y <= h / 2.0:
-            return e - (e - s) * math.sqrt(y / (2.0 * h))
-        return s + (e - s) * math.sqrt((h - y) / (2.0 * h))
+            return e - (e - s) * _sqrtn(y / (2.0 * h))
+        return s + (e - s) * _sqrtn((h - y) / (2.0 * h))
     raise KeyError(cls)
